@@ -116,6 +116,21 @@ class Roles:
             rest = [l for l in links if l != self.L_MRU]
             self.L_LRU = rest[0] if len(rest) == 1 else None
         if not self.L_LRU or not self.L_MRU or self.L_LRU == self.L_MRU:
+            # both observers read both links (e.g. one helper packs the two ends of the list into a struct): decide by value flow --
+            # which link of the seal the *returned* entry of each observer is reached through
+            a2 = self._link_in_result("peek_lru")
+            b2 = self._link_in_result("peek_mru")
+            la = next(iter(a2)) if len(a2) == 1 else None
+            lb = next(iter(b2)) if len(b2) == 1 else None
+            if la and not lb:
+                rest = [l for l in links if l != la]
+                lb = rest[0] if len(rest) == 1 else None
+            elif lb and not la:
+                rest = [l for l in links if l != lb]
+                la = rest[0] if len(rest) == 1 else None
+            if la and lb and la != lb:
+                self.L_LRU, self.L_MRU = la, lb
+        if not self.L_LRU or not self.L_MRU or self.L_LRU == self.L_MRU:
             self._fail("role-ambiguous: cannot tell the LRU-side from the MRU-side link (peek_lru reads %r, peek_mru reads %r)"
                        % (self.L_LRU, self.L_MRU))
 
@@ -160,6 +175,32 @@ class Roles:
                                 and p[1].get("of") == self.cache:
                             return p[1]["n"]
         return None
+
+    def _link_in_result(self, api):
+        """link fields that occur in the value `api` returns on its Some paths, evaluated on the body with its helpers inlined"""
+        b = self.method(api)
+        if b is None:
+            return set()
+        try:
+            from .inline import derive
+            from .terms import TermEval, show
+            import re
+
+            class _C:
+                pass
+            c = _C()
+            c.facts, c.cg, c.eff = self.facts, self.cg, None
+            v, _inl = derive(c, b, lambda tg: not tg.is_closure, depth=4)
+            te = TermEval(self.facts, self.cg, inline=True)
+            found = set()
+            for pr in te.all_results(v, max_paths=60):
+                txt = show(pr.ret)          # (Some(..) directly, or Option::map(Some(handle), projection))
+                for l in self.links:
+                    if re.search(r"\.%s(?![A-Za-z0-9_])" % re.escape(l), txt):
+                        found.add(l)
+            return found
+        except Exception:
+            return set()
 
     def _seal_links_read(self, api):
         """which link fields of Entry are read in the bodies reachable from pub fn `api`"""
